@@ -7,6 +7,7 @@ import (
 	"encoding/json"
 	"net"
 	"os"
+	"runtime"
 	"testing"
 
 	"github.com/pion/stun/v3"
@@ -171,6 +172,32 @@ func TestVerifC20(t *testing.T) {
 			op = func() { _ = rebuilt.Build(ml...) }
 		}
 		allocs := testing.AllocsPerRun(5, op)
+		if nvec%2 == 0 {
+			// AllocsPerRun discards the first execution; here the first execution after the intermediate use is
+			// the one that matters: measure single executions (smallest of three cycles, noise is additive)
+			small := new(stun.Message)
+			_ = small.Build(settersOf(allocShape{Fam: 4}, 3).list...)
+			smallRaw := append([]byte(nil), small.Raw...)
+			best := -1.0
+			for c := 0; c < 3; c++ {
+				useAll(smallRaw)
+				_ = rebuilt.Build(settersOf(allocShape{Fam: 4}, 3).list[:2]...)
+				if v.Op != "decode" {
+					_, _ = m.Write(measRaw)
+				}
+				var a, b runtime.MemStats
+				runtime.ReadMemStats(&a)
+				op()
+				runtime.ReadMemStats(&b)
+				d := float64(b.Mallocs - a.Mallocs)
+				if best < 0 || d < best {
+					best = d
+				}
+			}
+			if best > allocs {
+				allocs = best
+			}
+		}
 		spare := cap(m.Raw) - len(m.Raw)
 		tw.emit(map[string]interface{}{"k": "alloc", "op": v.Op, "w": v.W, "m": v.M, "spare": spare, "allocs": int(allocs),
 			"must": v.Must, "unk": v.M.Unk, "intermediate_small_use": nvec%2 == 0})
